@@ -721,3 +721,13 @@ Proof.
     destruct (d_fail_at (w_dest w)); [|discriminate]. cbn [len length N.of_nat]. intros H. exfalso. lia.
   - apply dest_ext_refl.
 Qed.
+
+(* from a writer that has not sent anything yet *)
+Corollary fresh_whole_frames ops w : w_op w < 16 -> w_buf w = [] -> Forall wf_key (w_masks w) ->
+  d_calls (w_dest w) = [] -> d_fail_at (w_dest w) = None -> Forall op_wf ops ->
+  aligned_at_ops (steps_of ops (fst (run_wops ops w))) (dest_log (w_dest (snd (run_wops ops w)))) = true /\
+  exists fs, Forall wf_pframe fs /\ frames_of (concat (dest_log (w_dest (snd (run_wops ops w))))) = Some fs.
+Proof.
+  intros Ho Hb Hm Hd Hf Hops. pose proof (run_wops_aligned ops w (fresh_Jinv w Ho Hb Hm Hd) Hops Hf) as H.
+  destruct (run_wops ops w) as [obs w']. destruct H as (H1 & _ & H2). split; assumption.
+Qed.
